@@ -56,7 +56,15 @@ def run_engines(prop, cfg, tier, seed, drv):
             for f in sorted(os.listdir(cdir)):
                 if f.endswith('.json'):
                     item = json.load(open(os.path.join(cdir, f)))
-                    r = mod.replay(item['script'], drv)
+                    try:
+                        r = mod.replay(item['script'], drv)
+                    except Exception as e:
+                        # a pinned history that the tree under test cannot even execute (the implementation left the
+                        # script's event contract, e.g. made no attempt where one is refused): that is a difference
+                        # between model and code, not a harness failure - the generated search goes on
+                        from engines import Result
+                        r = Result(name)
+                        r.disagree('corpus script %s cannot be executed on this tree: %s' % (f, repr(e)[:200]), item['script'], 'exception', 'executes')
                     r.stats['corpus-scripts'] += 1
                     r.evaluations += 0 if r.evaluations else 1
                     results.append(r)
@@ -138,7 +146,14 @@ def check(prop, tier, seed):
     rc = 0
     replay_path = None
     if new_violations:
-        v = new_violations[0]
+        # report the violation with the smallest script (there is no general shrinker; the smallest of the failing
+        # histories found is the most readable replay)
+        def _size(v_):
+            try:
+                return len(json.dumps(v_['script']))
+            except Exception:
+                return 10 ** 9
+        v = min(new_violations, key=_size)
         replay_path = write_replay(prop, 'violation', {'property': prop, 'kind': 'violation', 'engine': v['engine'],
                                                        'rule': v['rule'], 'key': v.get('key'), 'what': v['what'], 'script': v['script']})
         out_lines.append('VIOLATION property=%s replay=%s' % (prop, replay_path))
@@ -289,6 +304,76 @@ def selftest(ids):
     return 1 if bad else 0
 
 
+def harvest(ids):
+    """Pin the failing input of every seeded change: run the seed's check on a scratch worktree, take the replay it
+    reports, confirm that the same script runs clean (no violation, no disagreement) on the unchanged tree and on the
+    mutant reproduces the violation, and keep it as corpus/<engine>/seed_<id>.json - the corpus runs first in every
+    check, so detection of these shapes no longer depends on what the random generators happen to produce."""
+    import glob
+    import shutil
+    import subprocess
+    import tempfile
+    seeded = os.path.join(VERIF, 'seeded')
+    ids = ids or sorted(d for d in os.listdir(seeded) if os.path.exists(os.path.join(seeded, d, 'patch.diff')))
+    kept, skipped = [], []
+    for sid in ids:
+        prop = sid.split('-')[0]
+        wt = tempfile.mkdtemp(prefix='hpfeeds_harvest_', dir='/var/tmp')
+        out = tempfile.mkdtemp(prefix='hpfeeds_harvest_out_', dir='/var/tmp')
+        os.rmdir(wt)
+        try:
+            subprocess.run(['git', '-C', '/repo', 'worktree', 'add', '--detach', '-q', wt, 'HEAD'], capture_output=True, text=True)
+            r = subprocess.run(['git', 'apply', os.path.join(seeded, sid, 'patch.diff')], cwd=wt, capture_output=True, text=True)
+            if r.returncode != 0:
+                skipped.append((sid, 'patch does not apply'))
+                continue
+            env = dict(os.environ, VERIF_REPO_ROOT=wt, VERIF_OUT=out)
+            subprocess.run([sys.executable, os.path.abspath(__file__), prop, 'quick'], env=env, capture_output=True, text=True, timeout=3000)
+            files = sorted(glob.glob(os.path.join(out, 'replays', '%s_violation_*.json' % prop)))
+            if not files:
+                skipped.append((sid, 'no failing input reported'))
+                continue
+            rp = json.load(open(files[0]))
+            engine, script = rp.get('engine'), rp.get('script')
+            if not engine or not isinstance(script, dict):
+                skipped.append((sid, 'replay has no engine/script'))
+                continue
+            item = {'engine': engine, 'note': 'failing input of seeded change %s (%s / %s): %s' % (sid, rp.get('property'), rp.get('rule'), str(rp.get('what'))[:300]), 'script': script}
+            text = json.dumps(item)
+            if len(text) > 300000:
+                skipped.append((sid, 'script too large (%d bytes)' % len(text)))
+                continue
+            tmpf = os.path.join(out, 'candidate.json')
+            open(tmpf, 'w').write(text)
+            # must reproduce on the mutant ...
+            r1 = subprocess.run([sys.executable, os.path.abspath(__file__), 'replay', tmpf], env=env, capture_output=True, text=True, timeout=600)
+            # ... and run clean on the unchanged tree
+            env0 = {k: v for k, v in os.environ.items() if k not in ('VERIF_REPO_ROOT', 'VERIF_OUT')}
+            r0 = subprocess.run([sys.executable, os.path.abspath(__file__), 'replay', tmpf], env=env0, capture_output=True, text=True, timeout=600)
+            if r1.returncode != 1 or ('property=%s' % prop) not in r1.stdout:
+                skipped.append((sid, 'replay does not reproduce on the mutant (rc=%d)' % r1.returncode))
+                continue
+            if r0.returncode != 0:
+                skipped.append((sid, 'replay is not clean on the unchanged tree: %s' % r0.stdout[-200:]))
+                continue
+            cdir = os.path.join(VERIF, 'corpus', engine)
+            os.makedirs(cdir, exist_ok=True)
+            json.dump(item, open(os.path.join(cdir, 'seed_%s.json' % sid), 'w'), indent=1)
+            kept.append(sid)
+            print('%-8s kept   corpus/%s/seed_%s.json (%d bytes)' % (sid, engine, sid, len(text)), flush=True)
+        except Exception as e:
+            skipped.append((sid, repr(e)[:200]))
+        finally:
+            subprocess.run(['git', '-C', '/repo', 'worktree', 'remove', '--force', wt], capture_output=True)
+            shutil.rmtree(wt, ignore_errors=True)
+            shutil.rmtree(out, ignore_errors=True)
+    extract.extract()
+    for sid, why in skipped:
+        print('%-8s skipped: %s' % (sid, why))
+    print('harvest: %d kept, %d skipped' % (len(kept), len(skipped)))
+    return 0
+
+
 def harmless(ids):
     """False-alarm regression: every /verif/harmless/<id>/patch.diff is a behaviour-preserving rewrite of /repo (the
     properties still hold).  Each is applied to a scratch worktree and EVERY check must still exit 0 on it."""
@@ -349,6 +434,8 @@ def main(argv):
         return selftest(argv[1:])
     if argv[0] == 'harmless':
         return harmless(argv[1:])
+    if argv[0] == 'harvest':
+        return harvest(argv[1:])
     if argv[0] == 'replay':
         return replay(argv[1])
     seed = int(os.environ.get('VERIF_SEED', '0') or 0)
